@@ -156,12 +156,16 @@ def gen_scenario(rng, sbs, placement, simple=False):
             submeta = "copy_subdir: data/deep\n"
         elif r < 0.6:
             submeta = "copy_subdir: ../img\n"          # stays below <out>/page
+        elif r < 0.7:                                  # climbs out: must be skipped
+            submeta = rng.choice(["copy_subdir: ../../../shared\n", "copy_subdir: data\n    ../../img\n",
+                                  "copy_subdir: @SB@/shared\n"])
         if flip(0.3):
             topmeta = "copy_subdir: img\n"
         if flip(0.25):
             opts["copy_subdir"] = rng.choice([["img"], ["./pages/img", "nothing"]])   # project level
         if flip(0.2):
-            topmeta += "ordered_subpage: sub\n"
+            topmeta += rng.choice(["ordered_subpage: sub\n", "ordered_subpage: sub/../../../note.md\n    sub\n",
+                                   "ordered_subpage: sub/a.md\n", "ordered_subpage: ../media\n"])
     g = rng.choice(graph_placements(sbs, out))
     if g is not None and not simple:
         if isinstance(g, tuple):
